@@ -14,6 +14,8 @@ from __future__ import annotations
 import itertools
 import random
 
+import re
+
 from vf import bindcase as bc
 from vf import xmlkit
 from vf.props import c11_models as M
@@ -167,6 +169,10 @@ def random_tree(rng, budget, depth=0):
             k = random_tree(rng, budget, depth + 1)
             k.tail = rng.choice(["", "", "tail", " ", "\n"])
             n.kids.append(k)
+    if depth > 0 and rng.random() < 0.07 and not any(a[0] == XSI for a in n.attrs):
+        # a nested generic element naming a type nobody knows, through a prefix it declares itself: stays an attribute whose
+        # value is a qualified name (seeded change C11-r4-2: the child was handed its parent's prefixes)
+        n.attrs = n.attrs + ((XSI, "type", (rng.choice([P, Q]), rng.choice(["foo", "a"]))),)
     return n
 
 
@@ -254,10 +260,18 @@ def check(ctx, placement, doc, frag_key, label):
         if d:
             ctx.violation(f"handlers-disagree/{placement}/{diff_tag(d)}", f"{d}\n{doc[:800]}", w)
     for handler, obj in parsed.items():
-        for writer in bc.WRITERS:
-            ctx.case(doc, placement, handler, writer)
+        # besides the plain configuration: a caller's prefix map that binds a namespace of the document as the *default* one only
+        # (a qualified attribute still needs a real prefix; seeded change C11-r4-1) - chosen by the document, not by the rng
+        uris = sorted(set(re.findall(r'xmlns(?::[\w.-]+)?="([^"]+)"', doc)) - {XSI})
+        plans = [(writer, None) for writer in bc.WRITERS]
+        if uris and handler == "native":
+            plans += [(writer, [["", uris[len(doc) % len(uris)]]]) for writer in bc.WRITERS]  # bindcase convention: list of pairs, "" = default
+        for writer, ns_map in plans:
+            ctx.case(doc, placement, handler, writer, repr(ns_map))
+            if ns_map:
+                ctx.feature("render:ns_map-default-only")
             try:
-                out = bc.render(None, obj, {"xml_declaration": False}, writer)
+                out = bc.render(None, obj, {"xml_declaration": False, "ns_map": ns_map} if ns_map else {"xml_declaration": False}, writer)
             except Exception as e:  # noqa: BLE001
                 ctx.violation(f"serialize-raises/{placement}/{writer}/{bc.short_exc(e)}", f"{type(e).__name__}: {e}\n{doc[:600]}\n{obj!r}"[:1800], w)
                 continue
